@@ -11,6 +11,8 @@ import (
 	"time"
 
 	"veriftxn/common"
+
+	"github.com/pingcap/failpoint"
 	_ "veriftxn/unibk"
 
 	"github.com/tikv/client-go/v2/verifrt/ev"
@@ -415,6 +417,48 @@ func main() {
 			}
 		}
 		suiteDesc = append(suiteDesc, fmt.Sprintf("topology: %d two-key writer x reader pairs, every mode, %d layout(s), P=1, one deviation of {real split before delivery, NotLeader (thorough: + injected EpochNotMatch)} at any RPC of either client", len(pairs), len(tlayouts)))
+	}
+	// Stale clean-up suite: a locking call of T fails (no-wait against a holder), which schedules an
+	// asynchronous pessimistic rollback; T then locks the same key again with a newer for-update ts. The
+	// library's own delay hook (failpoint beforeAsyncPessimisticRollback = "delay": a virtual sleep at the
+	// start of the clean-up goroutine) makes the start of that goroutine a scheduling decision, so the
+	// clean-up can run after the second locking call. The other client runs two transactions on the key:
+	// the holder, and one that must not get in while T holds its lock.
+	{
+		lockSet := func(k string) []txnh.Op { return []txnh.Op{op("lock", k), op("set", k), op("commit", "")} }
+		tOps := []txnh.Op{{Kind: "lock", Key: "a", NoWait: true}, op("lock", "a"), op("set", "a"), op("commit", "")}
+		for _, bk := range common.BackendsTier(run.Thorough()) {
+			for _, m := range bk.Modes {
+				if !m.Pessimistic {
+					continue
+				}
+				bk, m := bk, m
+				name := fmt.Sprintf("%s/1region/%s/P3/stale-cleanup: lock-nowait(a);lock(a);set(a) || lock(a);set(a) ; lock(a);set(a)", bk.Name, m)
+				mk := func() *txnh.TxnScenario {
+					sc := &txnh.TxnScenario{ID: name, NewBackend: func() txnh.Backend { return bk.New(nil) }, Keys: keys,
+						Progs: [][]txnh.Program{{{Mode: m, Ops: tOps, KeepGoing: true}}, {{Mode: m, Ops: lockSet("a")}, {Mode: m, Ops: lockSet("a")}}}}
+					sc.SetupFn = func(s *txnh.TxnScenario) {
+						common.SeedKey(s, "a", "base")
+						failpoint.Enable("tikvclient/beforeAsyncPessimisticRollback", `return("delay")`)
+					}
+					sc.CheckFn = func(s *txnh.TxnScenario, x *sched.Exec) []sched.Violation {
+						failpoint.Disable("tikvclient/beforeAsyncPessimisticRollback")
+						t := txnh.ReadTruth(s.W.B, s.Keys)
+						t.Log = s.W.Log()
+						return txnh.AuditSI(s.H, t)
+					}
+					return sc
+				}
+				specs[name] = mk()
+				jobs = append(jobs, sched.Job{Name: name, Run: func(dl time.Time) sched.Report {
+					sc := mk()
+					x := &sched.Explorer{Sc: sc, B: sched.Bounds{P: 3, F: 0, Horizon: 400, EarlyTimers: true, Deadline: dl}}
+					x.Outcome = func(*sched.Exec) string { return sc.OutcomeString() + " " + strings.Join(sc.H.Txns[0].OpErrs, ",") }
+					return x.Explore(false)
+				}})
+			}
+		}
+		suiteDesc = append(suiteDesc, "stale clean-up: failed no-wait lock + re-lock of the same key with the asynchronous pessimistic rollback delayed by the library's failpoint hook (virtual sleep), against a holder and a later locker, P=3")
 	}
 	if common.HandleReplay(run, jobs, func(name string) sched.Scenario {
 		if s, ok := specs[name]; ok {
